@@ -156,22 +156,71 @@ func partialScopeEval(env Env, ent types.Value, in ast.IsScopeNode) (bool, bool)
 var errVariable = fmt.Errorf("variable")
 var errIgnore = fmt.Errorf("ignore")
 
+// containsUnknown reports whether v is, or contains at any depth, a variable or an ignore marker.
+func containsUnknown(v types.Value) (variable, ignore bool) {
+	switch t := v.(type) {
+	case types.EntityUID:
+		return t.Type == variableEntityType, t.Type == ignoreEntityType
+	case types.Record:
+		for vv := range t.Values() {
+			a, b := containsUnknown(vv)
+			variable, ignore = variable || a, ignore || b
+		}
+	case types.Set:
+		for vv := range t.All() {
+			a, b := containsUnknown(vv)
+			variable, ignore = variable || a, ignore || b
+		}
+	}
+	return variable, ignore
+}
+
+// residualOperand returns the node to keep in a residual expression for an operand whose partial evaluation gave n.
+// A literal that (deeply) contains an unknown must not be frozen into the residual - the marker would never be
+// replaced by the real value - so the original expression orig is kept instead.
+func residualOperand(orig, n ast.IsNode) ast.IsNode {
+	if v, ok := n.(ast.NodeValue); ok {
+		if hasVar, hasIgnore := containsUnknown(v.Value); hasVar || hasIgnore {
+			return orig
+		}
+	}
+	return n
+}
+
 // NOTE: nodes is modified in place, so be sure to send unique copy in
+// tryPartial partially evaluates an operator that consumes its operands as a whole: if an operand is a record or set
+// that contains an unknown, the result is unknown as well.
 func tryPartial(env Env, nodes []ast.IsNode,
+	mkEval func(values []types.Value) Evaler,
+	mkNode func(nodes []ast.IsNode) ast.IsNode,
+) (ast.IsNode, error) {
+	return tryPartialOp(env, nodes, false, mkEval, mkNode)
+}
+
+// tryPartialSelect partially evaluates an operator that only builds a composite value or selects a component of one
+// (variable, attribute access, has, record and set literals); unknowns nested in its operands pass through.
+func tryPartialSelect(env Env, nodes []ast.IsNode,
+	mkEval func(values []types.Value) Evaler,
+	mkNode func(nodes []ast.IsNode) ast.IsNode,
+) (ast.IsNode, error) {
+	return tryPartialOp(env, nodes, true, mkEval, mkNode)
+}
+
+func tryPartialOp(env Env, nodes []ast.IsNode, selects bool,
 	mkEval func(values []types.Value) Evaler,
 	mkNode func(nodes []ast.IsNode) ast.IsNode,
 ) (ast.IsNode, error) {
 	var values []types.Value
 	ok := true
-	for i, n := range nodes {
-		n, err := partial(env, n)
+	for i, orig := range nodes {
+		n, err := partial(env, orig)
 		if errors.Is(err, errVariable) {
 			ok = false
 			continue
 		} else if err != nil {
 			return nil, err
 		}
-		nodes[i] = n
+		nodes[i] = residualOperand(orig, n)
 		if !ok {
 			continue
 		}
@@ -180,6 +229,15 @@ func tryPartial(env Env, nodes []ast.IsNode,
 			continue
 		}
 		ok = false
+	}
+	if ok && !selects {
+		for _, v := range values {
+			if hasVar, hasIgnore := containsUnknown(v); hasIgnore {
+				return nil, errIgnore
+			} else if hasVar {
+				return mkNode(nodes), errVariable
+			}
+		}
 	}
 	if ok {
 		eval := mkEval(values)
@@ -214,7 +272,7 @@ func tryPartialUnary(env Env, v ast.UnaryNode, mkEval func(a Evaler) Evaler, wra
 func partial(env Env, n ast.IsNode) (ast.IsNode, error) {
 	switch v := n.(type) {
 	case ast.NodeTypeAccess:
-		return tryPartial(env,
+		return tryPartialSelect(env,
 			[]ast.IsNode{v.Arg},
 			func(values []types.Value) Evaler {
 				return newAttributeAccessEval(newLiteralEval(values[0]), v.Value)
@@ -224,7 +282,7 @@ func partial(env Env, n ast.IsNode) (ast.IsNode, error) {
 			},
 		)
 	case ast.NodeTypeHas:
-		return tryPartial(env,
+		return tryPartialSelect(env,
 			[]ast.IsNode{v.Arg},
 			func(values []types.Value) Evaler {
 				return newPartialHasEval(newLiteralEval(values[0]), v.Value)
@@ -308,7 +366,7 @@ func partial(env Env, n ast.IsNode) (ast.IsNode, error) {
 		for i, pair := range v.Elements {
 			elements[i] = pair.Value
 		}
-		return tryPartial(env, elements,
+		return tryPartialSelect(env, elements,
 			func(values []types.Value) Evaler {
 				m := make(map[types.String]Evaler, len(values))
 				for i, val := range values {
@@ -327,7 +385,7 @@ func partial(env Env, n ast.IsNode) (ast.IsNode, error) {
 	case ast.NodeTypeSet:
 		elements := make([]ast.IsNode, len(v.Elements))
 		copy(elements, v.Elements)
-		return tryPartial(env, elements,
+		return tryPartialSelect(env, elements,
 			func(values []types.Value) Evaler {
 				el := make([]Evaler, len(values))
 				for i, v := range values {
@@ -344,7 +402,7 @@ func partial(env Env, n ast.IsNode) (ast.IsNode, error) {
 	case ast.NodeTypeNot:
 		return tryPartialUnary(env, v.UnaryNode, newNotEval, func(b ast.UnaryNode) ast.IsNode { return ast.NodeTypeNot{UnaryNode: b} })
 	case ast.NodeTypeVariable:
-		return tryPartial(env,
+		return tryPartialSelect(env,
 			[]ast.IsNode{},
 			func(_ []types.Value) Evaler {
 				return newVariableEval(v.Name)
@@ -448,7 +506,7 @@ func partialIfThenElse(env Env, v ast.NodeTypeIfThenElse) (ast.IsNode, error) {
 	} else if elseErr != nil && !errors.Is(elseErr, errVariable) {
 		elseNode = extError(elseErr)
 	}
-	return ast.NodeTypeIfThenElse{If: ifNode, Then: thenNode, Else: elseNode}, nil
+	return ast.NodeTypeIfThenElse{If: ifNode, Then: residualOperand(v.Then, thenNode), Else: residualOperand(v.Else, elseNode)}, nil
 }
 
 func partialAnd(env Env, v ast.NodeTypeAnd) (ast.IsNode, error) {
